@@ -528,7 +528,12 @@ func init() {
 		return Tuple{args[0], &boundBuiltin{obj: &builtinObj{kind: "noop"}, method: "cancel"}}
 	})
 	reg(rtPkg+".TempDir", func(in *Interp, fr *frame, fn *ssa.Function, args []Value) Value {
-		return in.mkStr("/veriftmp")
+		// a fresh directory per call (the first keeps the historic name)
+		in.tmpDirs++
+		if in.tmpDirs == 1 {
+			return in.mkStr("/veriftmp")
+		}
+		return in.mkStr(fmt.Sprintf("/veriftmp%d", in.tmpDirs))
 	})
 	// io.Copy / io.CopyN through the Read and Write methods of the operands
 	reg("io.Copy", func(in *Interp, fr *frame, fn *ssa.Function, args []Value) Value {
@@ -725,6 +730,10 @@ func (in *Interp) now() Value {
 	}
 	// structurally bounded: seconds fit 32 bits, nanoseconds are a remainder modulo 10^9
 	sec32 := in.freshVar("now.sec", 32)
+	if in.cfg.Params["onesecond"] == 1 {
+		// every instant of the run lies within one fixed second: nanosecond arithmetic stays linear
+		sec32 = tb.BV(32, 1<<31)
+	}
 	nsv := in.freshVar("now.nsec", 32)
 	in.record("now", "time", []*T{sec32, nsv}, 0)
 	sec := tb.ZExt(sec32, 64)
